@@ -305,7 +305,7 @@ def _pm_refuse_case(rng, tier, bad):
         c = _pm_case(rng, tier, dtype='uint8', ts='Explicit', ndim=rng.choice([2, 3, 4]),
                      src_type=rng.choice(['series', 'multiframe', 'multiframe_file']))
         c.update(kind='pm_refuse', bad=bad, pp=None)
-        n = len(c['src']['pos'])
+        n = 1 if len(c['shape']) == 2 else c['shape'][0]      # number of planes (the source count may differ from it)
         k = n + 1 if rng.random() < 0.5 or n == 1 else n - 1
         c['src']['pos'] = _positions(rng, k, 'regular')
         if c['src']['type'] == 'series':
